@@ -250,11 +250,19 @@ def real_detectors(ctx):
             b = a + 3
         base[a:b] += 6.0
         base[b:b + 2, 0] -= 7.0         # a second, adjacent event
+        if rep % 2 == 0:
+            base[int(rng.integers(0, a - 2)), rep % 4 // 2] += 16.0      # an isolated spike BEFORE the collective event (a point anomaly precedes a collective one)
         dets = [("PELT", lambda: PELT(), 2), ("MovingWindow", lambda: MovingWindow(bandwidth=4), 2),
                 ("SeededBinarySegmentation", lambda: SeededBinarySegmentation(), 2),
                 ("CAPA", lambda: CAPA(), 2), ("MVCAPA", lambda: MVCAPA(), 2),
                 ("CircularBinarySegmentation", lambda: CircularBinarySegmentation(), 2),
-                ("StatThresholdAnomaliser", lambda: StatThresholdAnomaliser(PELT(), stat_lower=-2.0, stat_upper=2.0), 1)]
+                ("StatThresholdAnomaliser", lambda: StatThresholdAnomaliser(PELT(), stat_lower=-2.0, stat_upper=2.0), 1),
+                # configurations under which NOTHING is detected: the dense output must still have the detector's own format
+                ("PELT(nothing detected)", lambda: PELT(penalty_scale=1e6), 2), ("MovingWindow(nothing detected)", lambda: MovingWindow(bandwidth=4, threshold_scale=1e6), 2),
+                ("CAPA(nothing detected)", lambda: CAPA(collective_penalty_scale=1e6, point_penalty_scale=1e6), 2),
+                ("MVCAPA(nothing detected)", lambda: MVCAPA(collective_penalty_scale=1e6, point_penalty_scale=1e6), 2),
+                ("CircularBinarySegmentation(nothing detected)", lambda: CircularBinarySegmentation(threshold_scale=1e6), 2),
+                ("StatThresholdAnomaliser(nothing detected)", lambda: StatThresholdAnomaliser(PELT(), stat_lower=-1e9, stat_upper=1e9), 1)]
         for name, mk, p in dets:
             ref = None
             for ik in INDEX_KINDS:
@@ -287,6 +295,16 @@ def real_detectors(ctx):
                 if cs != cb:
                     ctx.violation(f"{name}: dense_to_sparse(transform(X)) = {cb} differs from predict(X) = {cs} (index kind {ik})", inp,
                                   dict(sig, what="roundtrip"))
+                try:
+                    want = d.sparse_to_dense(sp, X.index, X.columns)
+                    wf = want if isinstance(want, pd.DataFrame) else want.to_frame()
+                    tf = tr if isinstance(tr, pd.DataFrame) else tr.to_frame()
+                    if tf.shape != wf.shape or [str(c) for c in tf.columns] != [str(c) for c in wf.columns] or not np.array_equal(tf.to_numpy(), wf.to_numpy()):
+                        ctx.violation(f"{name}: transform(X) (shape {tf.shape}, columns {list(tf.columns)[:3]}) is not sparse_to_dense(predict(X), X.index, X.columns) "
+                                      f"(shape {wf.shape}, columns {list(wf.columns)[:3]}); index kind {ik}", inp, dict(sig, what="transform-vs-sparse_to_dense"))
+                except Exception as ex:
+                    ctx.violation(f"{name}: sparse_to_dense(predict(X), X.index, X.columns) raised {type(ex).__name__}: {str(ex)[:100]}", inp,
+                                  dict(sig, what="exception", cls=type(ex).__name__))
                 if ref is None:
                     ref = (cs, dense)
                 elif ref != (cs, dense):
